@@ -350,6 +350,11 @@ Section P.
   Lemma pub_len_nat g k : classical_impl g = true -> length (pub g k) = N.to_nat (share_size g).
   Proof. intros C. pose proof (L_pub_len L g k C) as H. unfold lenN in H. lia. Qed.
 
+  Local Arguments firstn : simpl never.
+  Local Arguments skipn : simpl never.
+  Local Arguments Nat.eqb : simpl never.
+  Local Arguments Nat.add : simpl never.
+
   (* structural backing + the crypto laws: the client derives the server's secret *)
   Lemma sbacked_agree ks k' : sbacked ks k' ->
     forall b r sdata ssec, server_flight (ks_group k') (ks_data k') b r = Some (sdata, ssec) ->
@@ -368,7 +373,9 @@ Section P.
         pose proof (L_ct_len L (kem_ek d) r) as CL. pose proof (L_kem L d r) as KK.
         destruct (kem_encap (kem_ek d) r) as [ct ss]. simpl in CL, KK.
         destruct (L_dh_comm L 29 xk b eq_refl) as (s & D1 & D2). rewrite D2 in SF. inversion SF; subst sdata ssec.
-        simpl. rewrite app_length, CL, X32. simpl.
+        assert (LEN : (length (ct ++ pub 29 b) =? CT_SIZE + X_SIZE)%nat = true)
+          by (rewrite app_length, CL, X32; apply Nat.eqb_refl).
+        simpl. rewrite LEN. simpl.
         rewrite (skipn_exact _ _ CT_SIZE CL), (firstn_exact _ _ CT_SIZE CL).
         unfold KeyShare.ecdhe_key_for. simpl. rewrite M2. unfold KeyShare.get_shared. simpl. rewrite D1, M1. simpl. rewrite D1, KK. reflexivity.
       + destruct (N.eqb_spec (ks_group k') 25497) as [EK|NK]; [|discriminate].
@@ -377,7 +384,9 @@ Section P.
         pose proof (L_ct_len L (kem_ek d) r) as CL. pose proof (L_kem L d r) as KK.
         destruct (kem_encap (kem_ek d) r) as [ct ss]. simpl in CL, KK.
         destruct (L_dh_comm L 29 xk b eq_refl) as (s & D1 & D2). rewrite D2 in SF. inversion SF; subst sdata ssec.
-        simpl. rewrite app_length, CL, X32. simpl.
+        assert (LEN : (length (pub 29 b ++ ct) =? X_SIZE + CT_SIZE)%nat = true)
+          by (rewrite app_length, CL, X32; apply Nat.eqb_refl).
+        simpl. rewrite LEN. simpl.
         rewrite (skipn_exact _ _ X_SIZE (X32 b)), (firstn_exact _ _ X_SIZE (X32 b)).
         unfold KeyShare.ecdhe_key_for. simpl. rewrite M2. unfold KeyShare.get_shared. simpl. rewrite D1, M1. simpl. rewrite D1, KK. reflexivity.
     - destruct SB as (C & ck & DD & SEL).
